@@ -130,7 +130,12 @@ def _normalize_pad_width(
     # added to the axis lengths)
     result = [(int(before), int(after))
               for before, after in processed_pad_widths]
-    if any(before < 0 or after < 0 for before, after in result):
+    if (any(before < 0 or after < 0 for before, after in result)
+            # (widths meant for every axis, of an array without axes)
+            or (isinstance(pad_width, INT_CLASSES) and pad_width < 0)
+            or (isinstance(pad_width, abc.Sequence)
+                and any(isinstance(k, INT_CLASSES) and k < 0
+                        for k in pad_width))):
         raise ValueError("pad widths cannot be negative")
     return result
 
